@@ -418,13 +418,15 @@ class Inliner(object):
         return removed
 
 
-def inline_helpers(facts):
-    """Returns (facts with helpers inlined, report)."""
+def inline_helpers(facts, make_stable=None):
+    """Returns (facts with helpers inlined, report).  make_stable(facts) -> stable(fid, name, init): asked once the
+    helpers are inlined, decides whether a new local may be replaced by its initialiser (nothing the initialiser reads
+    is written between the definition and a use)."""
     ndes = desugar_algorithms(facts)
     inl = Inliner(facts)
     inl.orig = copy.deepcopy({fid: facts['functions'][fid] for fid in inl.helpers})
     removed = inl.run()
-    nprop = propagate_new_locals(facts)
+    nprop = propagate_new_locals(facts, make_stable(facts) if make_stable else None)
     if inl.inlined_sites:
         for F in facts['functions'].values():
             if F.get('has_inlined'):
@@ -459,15 +461,17 @@ def _pure(facts, d, depth=0):
         return _pure(facts, d.get('b'), depth + 1) and _pure(facts, d.get('i'), depth + 1)
     if k == 'cond':
         return all(_pure(facts, d.get(x), depth + 1) for x in ('c', 't', 'f'))
+    if k == 'ctor' and any(t in (d.get('ty') or '') for t in ('StringPiece', 'basic_string', 'std::string', 'iterator')) and len(d.get('args') or []) <= 2:
+        return _pure(facts, d.get('args') or [], depth + 1)       # a string view / copy of a pure value
     if k == 'call':
         callee = facts['functions'].get(d.get('fn') or '')
-        last = (d.get('name') or '').split('::')[-1].split('<')[0]
+        last = _lastname(d.get('name'))
         ok = (callee is not None and callee.get('const') and len(callee.get('blocks', [])) <= 6) or last in PURE_LAST
         return bool(ok) and _pure(facts, d.get('recv'), depth + 1) and _pure(facts, d.get('args') or [], depth + 1)
     return False
 
 
-def propagate_new_locals(facts):
+def propagate_new_locals(facts, stable=None):
     """A local that did not exist at design time (nv/design_time_locals.json), is defined exactly once
     by a side-effect-free expression and never has its address taken is replaced by that expression
     (`Node* const out = nodes_[id]; f(out)` is analysed as `f(nodes_[id])`)."""
@@ -484,6 +488,7 @@ def propagate_new_locals(facts):
             continue            # a function the rules never saw is analysed as written (or was inlined away)
         defs = {}
         bad = set()
+        mutated = set()
         for b in F['blocks']:
             for e in b['ev']:
                 if e.get('k') == 'decl':
@@ -497,6 +502,16 @@ def propagate_new_locals(facts):
                 for x in _walk(e):
                     if x.get('k') == 'un' and x.get('op') == '&' and isinstance(x.get('e'), dict) and x['e'].get('k') == 'var':
                         bad.add(x['e']['n'])
+                    # an object that is written through a member call (`s = x`, `s += x`, `v.push_back(x)`) is not a value
+                    if x.get('k') == 'call' and isinstance(x.get('recv'), dict):
+                        r = x['recv']
+                        while isinstance(r, dict) and r.get('k') == 'cast':
+                            r = r.get('e')
+                        if isinstance(r, dict) and r.get('k') == 'var':
+                            callee = facts['functions'].get(x.get('fn') or '')
+                            last = _lastname(x.get('name'))
+                            if not ((callee is not None and callee.get('const')) or last in PURE_LAST or last in ('find', 'count', 'compare', 'substr', 'rfind', 'find_first_of', 'find_last_of', 'AsString', 'operator==', 'operator!=', 'operator<')):
+                                mutated.add(r['n'])
         subst = {}
         for name, ds in defs.items():
             base = name.split('#')[0].split('@')[0]
@@ -512,10 +527,20 @@ def propagate_new_locals(facts):
             init = ds[0]['init']
             if not _pure(facts, init):
                 continue
+            i0 = init
+            while isinstance(i0, dict) and i0.get('k') == 'cast':
+                i0 = i0.get('e')
+            if isinstance(i0, dict) and i0.get('k') == 'ctor':
+                ty = ds[0].get('ty') or ''
+                if name in mutated or not (ty.startswith('const ') or 'StringPiece' in ty or 'iterator' in ty):
+                    continue        # an object built here and possibly changed later is not a named value
             if any(x.get('k') == 'var' and str(x.get('n', '')).startswith(('__begin', '__range', '__end')) for x in _walk(init)):
                 continue        # the element variable of a range-for is not a hoisted expression
             # nothing the initialiser reads may be one of the variables being replaced in a cycle
             if any(x.get('k') == 'var' and x.get('n') == name for x in _walk(init)):
+                continue
+            if stable is not None and not stable(fid, name, ds[0]):
+                F.setdefault('not_propagated', []).append(name)
                 continue
             subst[name] = init
         if not subst:
@@ -536,7 +561,13 @@ def propagate_new_locals(facts):
 
         def rep_all(d):
             if d.get('k') == 'var' and d.get('n') in subst:
-                return copy.deepcopy(subst[d['n']])
+                r = copy.deepcopy(subst[d['n']])
+                r0 = r
+                while isinstance(r0, dict) and r0.get('k') in ('cast', 'tobool'):
+                    r0 = r0.get('e')
+                if isinstance(r0, dict) and r0.get('k') == 'bin' and r0.get('op') in ('&&', '||'):
+                    r0['val'] = True        # was computed as a value: the CFG does not branch on its operands here
+                return r
             return None
         for b in F['blocks']:
             newev = []
@@ -554,6 +585,25 @@ def propagate_new_locals(facts):
         F.setdefault('propagated', []).extend(sorted(subst))
         simplify_addr(F)
     return n
+
+
+def _lastname(name):
+    """Unqualified function name without template arguments (`std::map<K, std::pair<A, B>>::find<X>` -> find)."""
+    out, depth, i = [], 0, 0
+    name = name or ''
+    while i < len(name):
+        c = name[i]
+        if name.startswith('operator', i) and depth == 0:
+            out.append(name[i:])          # operator<, operator->, operator<< ... : keep verbatim
+            break
+        if c == '<':
+            depth += 1
+        elif c == '>':
+            depth -= 1
+        elif depth == 0:
+            out.append(c)
+        i += 1
+    return ''.join(out).split('::')[-1]
 
 
 def _addr_of(d):
@@ -589,16 +639,26 @@ def simplify_addr(F):
 
 
 # ---- std::all_of / any_of / none_of with a lambda -> the loop they stand for -----------------------
-ALGO = {'all_of': ('all', True), 'any_of': ('any', False), 'none_of': ('none', True)}
+ALGO = {'all_of': ('all', True), 'any_of': ('any', False), 'none_of': ('none', True),
+        'find_if': ('find', None), 'find_if_not': ('find_not', None)}
 
 
 def desugar_algorithms(facts):
     """`std::all_of(b, e, [..](T x){..})` (any_of, none_of) in a function the rules know is rewritten
     into the loop it abbreviates - `for (it = b; it != e; ++it) if (!pred(*it)) {r = false; break;}` -
     so that loop rules and guard facts see the same thing as for a hand-written loop.  The lambda call
-    in the loop body is then inlined like any other new helper."""
+    in the loop body is then inlined like any other new helper.  `find_if` / `find_if_not` likewise (the result is the
+    iterator).  Functions that already passed a lambda to an algorithm when the rules were written are left as they
+    are (the rules know that form): the pass changes nothing on the tree the rules were validated on."""
     n = 0
+    here = os.path.dirname(os.path.abspath(__file__))
+    try:
+        dt_lambda_hosts = {l.strip().split('::lambda@')[0] for l in open(os.path.join(here, 'design_time_functions.txt')) if '::lambda@' in l}
+    except OSError:
+        dt_lambda_hosts = set()
     for fid, F in facts['functions'].items():
+        if (F.get('name') or '') in dt_lambda_hosts:
+            continue
         changed = True
         rounds = 0
         while changed and rounds < 8:
@@ -608,7 +668,7 @@ def desugar_algorithms(facts):
                 for ei, E in enumerate(B['ev']):
                     if E.get('k') != 'call':
                         continue
-                    last = (E.get('name') or '').split('<')[0].split('::')[-1]
+                    last = _lastname(E.get('name'))
                     if not (E.get('name') or '').startswith('std::') or last not in ALGO:
                         continue
                     args = E.get('args') or []
@@ -632,7 +692,10 @@ def desugar_algorithms(facts):
                     exhausted_val = kind in ('all', 'none')
                     decided_val = not exhausted_val
                     # which predicate outcome ends the loop early
-                    early_on_true = kind in ('any', 'none')
+                    early_on_true = kind in ('any', 'none', 'find')
+                    finder = kind in ('find', 'find_not')
+                    if finder:
+                        res = it            # find_if returns the iterator it stopped at (or last)
                     cont = {'id': CONT, 'ev': B['ev'][ei + 1:], 'succ': B.get('succ', [])}
                     if 'term' in B:
                         cont['term'] = B['term']
@@ -663,8 +726,11 @@ def desugar_algorithms(facts):
                         {'id': XF, 'ev': [{'k': 'asg', 'op': '=', 'l': dict(res), 'r': {'k': 'bool', 'v': False}, 'line': line, 'src': 'result = false',
                                            'inl_ret': last}], 'succ': [CONT]},
                     ]
+                    if finder:
+                        blocks[3]['ev'] = []
+                        blocks[4]['ev'] = []
                     # thread the constant results into a continuation that only branches on them
-                    if not cont['ev'] and 'term' in cont and len(cont.get('succ', [])) == 2 and \
+                    if not finder and not cont['ev'] and 'term' in cont and len(cont.get('succ', [])) == 2 and \
                             any(x.get('k') == 'var' and x.get('n') == res['n'] for x in _walk(cont['term'].get('cond'))):
                         for xb in blocks[3:]:
                             val = xb['ev'][0]['r']
@@ -676,7 +742,7 @@ def desugar_algorithms(facts):
                             xb['term'] = _map(copy.deepcopy(cont['term']), thr)
                             xb['succ'] = list(cont['succ'])
                     # `return all_of(...)`: each exit returns its constant
-                    if len(cont['ev']) == 1 and cont['ev'][0].get('k') == 'ret' and isinstance(cont['ev'][0].get('e'), dict) and \
+                    if not finder and len(cont['ev']) == 1 and cont['ev'][0].get('k') == 'ret' and isinstance(cont['ev'][0].get('e'), dict) and \
                             cont['ev'][0]['e'].get('k') == 'var' and cont['ev'][0]['e'].get('n') == res['n']:
                         for xb in blocks[3:]:
                             val = xb['ev'][0]['r']
